@@ -555,12 +555,30 @@ def active() -> bool:
   return _current is not None
 
 
+_exec_count = 0
+
+
 def execute(body, prefix=(), **kw) -> Result:
-  """Runs body() as v-thread 0 under a fresh scheduler."""
-  global _current
+  """Runs body() as v-thread 0 under a fresh scheduler.
+
+  The cyclic garbage collector is switched off while an execution runs:
+  finalizers of garbage left by *earlier* executions (async generators, event
+  loops, generators with pending `finally` blocks) would otherwise run at
+  allocation-count dependent moments inside the current execution and touch
+  its scheduler.  Garbage is collected between executions, outside any
+  scheduler (where the shims degrade to sequential no-ops)."""
+  global _current, _exec_count
+  import gc
+  was_enabled = gc.isenabled()
+  gc.disable()
   s = Scheduler(prefix, **kw)
   _current = s
   try:
     return s.run(body)
   finally:
     _current = None
+    _exec_count += 1
+    if _exec_count % 25 == 0:
+      gc.collect()
+    if was_enabled:
+      gc.enable()
